@@ -59,6 +59,15 @@ def build_mir(log):
         shutil.rmtree(tmp, ignore_errors=True)
 
 
+def _die_with_parent():
+    # the executor must not outlive a killed check (PR_SET_PDEATHSIG = 1, SIGKILL = 9)
+    try:
+        import ctypes
+        ctypes.CDLL("libc.so.6").prctl(1, 9, 0, 0, 0)
+    except Exception:
+        pass
+
+
 def run(pid, tier, seed, log):
     """-> list of result dicts (see mirsym/run.py), plus the model table"""
     try:
@@ -75,7 +84,7 @@ def run(pid, tier, seed, log):
     env["VERIF_REPLAY_DIR"] = os.path.join(VERIF, "replay", pid)
     os.makedirs(env["VERIF_REPLAY_DIR"], exist_ok=True)
     cmd = ["python3-vt", os.path.join(VERIF, "mirsym", "run.py"), pid, tier, mir, src, out]
-    p = subprocess.run(cmd, capture_output=True, text=True, env=env)
+    p = subprocess.run(cmd, capture_output=True, text=True, env=env, preexec_fn=_die_with_parent)
     with open(log, "a") as lf:
         lf.write("$ " + " ".join(cmd) + "\n" + p.stdout[-20000:] + p.stderr[-5000:] + "\n")
     if not os.path.exists(out):
